@@ -205,13 +205,32 @@ func runWire(t *testing.T, r *rep.Reporter, c *rep.Case, idx int) {
 		}
 		hist = append(hist, rec)
 	}
-	if ex := e.model.existing(); len(ex) > 1 && p.Chance(1, 3) {
+	if ex := e.model.existing(); len(ex) > 1 && p.Chance(1, 2) {
 		canon := prng.Pick(p, ex)
+		// a successful authentication, then delete, then (mostly) re-create
+		// with another password: the old one must be refused on the wire
+		if a := e.model.accts[canon]; p.Chance(2, 3) {
+			o := runPlain(e.sasl, "", e.nmap.invert(p, canon), a.pw)
+			hist = append(hist, opRec{Op: "auth-before-change (direct)", Canon: canon, Pw: showPw(a.pw), PwLen: len(a.pw), Plain: &o})
+		}
 		name, vk := spell(p, canon, prng.Pick(p, variantKinds))
 		if err := e.pt.DeleteUser(name); err == nil {
 			e.model.del(canon)
 		}
 		hist = append(hist, opRec{Op: "delete", Name: name, Canon: canon, Variant: vk})
+		if p.Chance(2, 3) {
+			name, vk := spell(p, canon, prng.Pick(p, variantKinds))
+			sc := prng.Pick(p, schemes)
+			pw := genPassword(p, sc.algo == pass_table.HashBcrypt)
+			err := e.pt.CreateUserHash(name, pw, sc.algo, sc.opts)
+			rec := opRec{Op: "create", Name: name, Canon: canon, Variant: vk, Pw: showPw(pw), PwLen: len(pw), Scheme: sc.name}
+			if err == nil {
+				e.model.set(canon, pw, sc.name)
+			} else {
+				rec.Err = err.Error()
+			}
+			hist = append(hist, rec)
+		}
 	}
 	if ex := e.model.existing(); len(ex) > 0 && p.Chance(1, 6) {
 		canon := prng.Pick(p, ex)
@@ -342,13 +361,24 @@ func runWire(t *testing.T, r *rep.Reporter, c *rep.Case, idx int) {
 				canonWanted = prng.Pick(p, e.names)
 			}
 			canonLogin := e.nmap.invert(p, canonWanted)
-			canonAcct, mapped := e.nmap.ref(canonLogin)
-			name, vk := spell(p, canonLogin, prng.Pick(p, variantKinds))
+			if p.Chance(1, 5) {
+				canonLogin = canonWanted // the provider's account name, bypassing the map
+			}
+			kinds := variantKinds
+			if !(e.norm == "auto" || e.norm == "precis_casefold") && p.Bool() {
+				kinds = []string{"canon"}
+			}
+			name, vk := spell(p, canonLogin, prng.Pick(p, kinds))
+			canonAcct, mapped := e.resolve(name, canonLogin)
 			var a *acct
 			if mapped {
 				a = e.model.accts[canonAcct]
 			}
 			pw, _ := choosePassword(p, a, e.model, canonAcct)
+			if by := e.model.accts[canonLogin]; by != nil && by.exists && (!mapped || canonAcct != canonLogin) && p.Chance(3, 5) {
+				pw = by.pw // the password of the account that bears the supplied name
+				r.Count("wire_attempts_with_password_of_account_named_like_unmapped_or_remapped_login", 1)
+			}
 			if s == nsteps-1 && a != nil && a.exists && p.Chance(2, 3) {
 				pw = a.pw // end most connections with a good login
 			}
@@ -416,6 +446,9 @@ func runWire(t *testing.T, r *rep.Reporter, c *rep.Case, idx int) {
 					switch {
 					case !mapped:
 						cause = "name-has-no-mapping"
+						if _, classMapped := e.nmap.ref(canonLogin); classMapped {
+							cause = "name-spelling-not-folded-by=" + e.norm
+						}
 					case a == nil || (!a.exists && !a.deleted):
 						cause = "account-never-existed"
 					case !a.exists:
